@@ -403,12 +403,27 @@ def model_exe(ctx):
 MODEL_SPAN = 1 << 20
 
 
+def run_wr_impl(ctx, cases, lines):
+    """the real writers on every case; images that span a large part of the address space get a shard and a time limit
+    of their own (the writers probe every address of [low, high]: minutes under ASan on a loaded machine)"""
+    wide = [i for i, (fmt, img) in enumerate(cases) if G.low_high(img)[1] - G.low_high(img)[0] >= (1 << 27)]
+    ws = set(wide)
+    rest = [i for i in range(len(cases)) if i not in ws]
+    out = [None] * len(cases)
+    for i, a in zip(rest, nvlib.run_lines(ctx.harness, [lines[i] for i in rest], timeout=300)):
+        out[i] = a
+    if wide:
+        for i, a in zip(wide, nvlib.run_lines(ctx.harness, [lines[i] for i in wide], timeout=2400, shards=len(wide))):
+            out[i] = a
+    return out
+
+
 def correspondence(ctx, corr):
     cases = gen_cases(ctx)
     lines = [G.wr_line(fmt, img) for fmt, img in cases]
     cp = os.path.join(nvlib.VERIF, "corpus", ID, "lines.txt")
     corpus = [l.strip() for l in open(cp) if l.strip() and not l.startswith("#")] if os.path.exists(cp) else []
-    impl = nvlib.run_lines(ctx.harness, lines, timeout=120)
+    impl = run_wr_impl(ctx, cases, lines)
     ctx.notes["wr_impl"] = impl
     exe = model_exe(ctx)
     # --- writers: file bytes exact (the S0 time stamp record is compared in its own stream) -------------
@@ -517,7 +532,7 @@ def oracle(ctx, orc, focus=None):
     if "wr_impl" in ctx.notes:
         ans = ctx.notes["wr_impl"]
     else:
-        ans = nvlib.run_lines(ctx.harness, lines, timeout=120)
+        ans = run_wr_impl(ctx, cases, lines)
     rd_lines, rd_idx, wf = [], [], {}
     for i, ((fmt, img), line, a) in enumerate(zip(cases, lines, ans)):
         orc["cases"] += 1
@@ -662,7 +677,7 @@ def hang_probe(ctx, orc, stats):
     """high_address = 0xffffffff: `for (n = low; n <= high; n++)` cannot end (uint32_t n).  Only the record formats are
     probed in-process (they spin without output); bin/elf/uf2/amiga/macho have the same loop and would fill the disk."""
     lines = ["wr %s - - fffffff0:%s - -" % (f, "01" * 16) for f in (("hex",) if ctx.quick() else ("hex", "srec", "wdc"))]
-    ans = nvlib.run_lines(ctx.harness, lines, timeout=4, shards=len(lines))
+    ans = nvlib.run_lines(ctx.harness, lines, timeout=30, shards=len(lines))
     for l, a in zip(lines, ans):
         orc["cases"] += 1
         fmt = l.split(" ")[1]
